@@ -182,6 +182,11 @@ func (k *keyManagementContext) generateNewDHKeyPair(randomness io.Reader) error 
 		return err
 	}
 
+	k.installNewDHKeyPair(newPrivKey)
+	return nil
+}
+
+func (k *keyManagementContext) installNewDHKeyPair(newPrivKey secretKeyValue) {
 	tryLock(newPrivKey)
 
 	k.ourPreviousDHKeys.wipe()
@@ -192,7 +197,6 @@ func (k *keyManagementContext) generateNewDHKeyPair(randomness io.Reader) error 
 		pub:  modExpPCT(g1ct, newPrivKey).GetBigInt(),
 	}
 	k.ourKeyID++
-	return nil
 }
 
 func (k *keyManagementContext) revealMACKeysForOurPreviousKeyID() {
@@ -211,9 +215,15 @@ func (c *Conversation) rotateKeys(dataMessage dataMsg) error {
 
 func (k *keyManagementContext) rotateOurKeys(recipientKeyID uint32, randomness io.Reader) error {
 	if recipientKeyID == k.ourKeyID {
+		// draw the new key first: when the randomness source fails the previous generation stays
+		// valid, so neither its MAC keys may be revealed nor its counters forgotten
+		newPrivKey, err := randSizedSecret(randomness, 40)
+		if err != nil {
+			return err
+		}
 		k.revealMACKeysForOurPreviousKeyID()
 		k.counterHistory.forgetCountersForOurKey(k.ourKeyID - 1)
-		return k.generateNewDHKeyPair(randomness)
+		k.installNewDHKeyPair(newPrivKey)
 	}
 	return nil
 }
